@@ -45,8 +45,8 @@ type tnode struct {
 	text string // tLit: the literal as it reads in the template (before stripping)
 	// tInterp
 	src  string
-	sval func(tenv) (string, bool)  // string value, null?
-	cval func(tenv) cty.Value       // the value itself (for unwrapping)
+	sval func(tenv) (string, bool) // string value, null?
+	cval func(tenv) cty.Value      // the value itself (for unwrapping)
 	// tIf
 	cond    func(tenv) bool
 	then    []*tnode
@@ -75,8 +75,8 @@ func refCtx() *hcl.EvalContext {
 }
 
 type tgen struct {
-	r    *hv.Rng
-	feat map[string]int
+	r     *hv.Rng
+	feat  map[string]int
 	flush bool // literals avoid tabs (the indentation rule speaks of spaces)
 }
 
@@ -191,6 +191,16 @@ func (g *tgen) items(depth int, vars []string, numKeys map[string]bool, max int)
 			out = append(out, g.forNode(depth, vars, numKeys))
 		}
 		lastLit = false
+	}
+	// bodies of directives often begin / end with a whitespace-carrying literal: the literals the
+	// strip markers of the directive's own sequences act on
+	if depth > 0 {
+		if out[0].kind != tLit && g.r.Chance(0.5) {
+			out = append([]*tnode{{kind: tLit, text: g.r.Pick(" ", "  ", "\n", " w", "\n w", "  ,")}}, out...)
+		}
+		if out[len(out)-1].kind != tLit && g.r.Chance(0.5) {
+			out = append(out, &tnode{kind: tLit, text: g.r.Pick(" ", "  ", "\n", "w ", "w\n", ",  ")})
+		}
 	}
 	return out
 }
@@ -667,10 +677,28 @@ func (g *tgen) indent(items []*tnode, base int, lineStart *bool) []*tnode {
 			}
 			*lineStart = false
 		}
-		// the bodies of directives follow the opening sequence on the same line
-		n.then = g.indent(n.then, base, lineStart)
-		n.els = g.indent(n.els, base, lineStart)
-		n.body = g.indent(n.body, base, lineStart)
+		// the bodies of directives follow the opening sequence on the same line; an `else` /
+		// `endif` / `endfor` that begins a line gets its indentation at the end of the body
+		closeLine := func(body []*tnode) []*tnode {
+			if *lineStart {
+				if k := len(body); k > 0 && body[k-1].kind == tLit && g.r.Chance(0.75) {
+					body[k-1].text += ind()
+				} else {
+					g.f("flush-line-starts-with-sequence")
+				}
+				*lineStart = false
+			}
+			return body
+		}
+		switch n.kind {
+		case tIf:
+			n.then = closeLine(g.indent(n.then, base, lineStart))
+			if n.hasElse {
+				n.els = closeLine(g.indent(n.els, base, lineStart))
+			}
+		case tFor:
+			n.body = closeLine(g.indent(n.body, base, lineStart))
+		}
 		out = append(out, n)
 	}
 	return out
@@ -799,4 +827,44 @@ func describe(v cty.Value, d hcl.Diagnostics) string {
 	return hv.DumpVal(v)
 }
 
-var _ = fmt.Sprint
+// A failing input of this oracle is recorded together with its expectation so that it can be
+// replayed without the generator: `<source>   ## tref-expect <encoding>`.
+const trefMark = "   ## tref-expect "
+
+func encodeExpect(e texpect) string {
+	switch {
+	case e.err:
+		return "error"
+	case e.val.IsNull():
+		return "null"
+	case e.val.Type() == cty.String:
+		return fmt.Sprintf("s:%x", e.val.AsString())
+	case e.val.Type() == cty.Number:
+		return "n:" + e.val.AsBigFloat().Text('f', -1)
+	case e.val.Type() == cty.Bool:
+		return fmt.Sprintf("b:%v", e.val.True())
+	}
+	return "?"
+}
+
+func decodeExpect(s string) (texpect, bool) {
+	s = strings.TrimSpace(s)
+	switch {
+	case s == "error":
+		return texpect{err: true}, true
+	case s == "null":
+		return texpect{val: cty.NullVal(cty.String)}, true
+	case strings.HasPrefix(s, "s:"):
+		var b []byte
+		if _, err := fmt.Sscanf(s[2:], "%x", &b); err != nil && len(s) > 2 {
+			return texpect{}, false
+		}
+		return texpect{val: cty.StringVal(string(b))}, true
+	case strings.HasPrefix(s, "n:"):
+		v, err := cty.ParseNumberVal(s[2:])
+		return texpect{val: v}, err == nil
+	case strings.HasPrefix(s, "b:"):
+		return texpect{val: cty.BoolVal(s[2:] == "true")}, true
+	}
+	return texpect{}, false
+}
